@@ -8,6 +8,7 @@ import (
 	"go/token"
 	"go/types"
 	"os"
+	"os/exec"
 	"path/filepath"
 	"regexp"
 	"strings"
@@ -421,4 +422,87 @@ func replayDupSubExpr(rc *runCtx, h *harness, v *interp.Violation, file string) 
 		return true, bad + "\n" + src
 	}
 	return false, "the real checker does not report `" + expr + "`"
+}
+
+// replayNilValReturn: rebuild the template from the model, compile it and run
+// it: the function the real checker flags must return nil whenever it takes the flagged return.
+func replayNilValReturn(rc *runCtx, h *harness, v *interp.Violation, file string) (bool, string) {
+	kind := int(v.Model["choose:operand?c"].I.Int64())
+	operands := []string{"x", "p.next", "f()", "<-ch"}
+	if kind < 0 || kind >= len(operands) {
+		return false, "model without an operand kind"
+	}
+	e := operands[kind]
+	op := token.Token(int(v.Model["op?i"].I.Int64())).String()
+	shadow := ""
+	if v.Model["nil is a user variable?b"].B {
+		shadow = "\tnil := sentinel\n"
+	}
+	body := "type node struct{ next *node }\n\nvar (\n\tsentinel = &node{}\n\tx        = sentinel\n\tp        = &node{next: sentinel}\n\tch       = make(chan *node, 4)\n\tcalls    int\n)\n\n" +
+		"func f() *node {\n\tcalls++\n\tif calls%2 == 1 {\n\t\treturn nil\n\t}\n\treturn sentinel\n}\n\n" +
+		"func gsxF() (*node, bool) {\n" + shadow + "\tif " + e + " " + op + " nil {\n\t\treturn " + e + ", true\n\t}\n\treturn nil, false\n}\n"
+	// the analysed variant returns a single value (what the checker looks for)
+	analysed := "package cand\n\n" + strings.Replace(strings.Replace(strings.Replace(body, "(*node, bool)", "*node", 1), ", true", "", 1), "return nil, false", "return nil", 1)
+	if ok, msg := typeCheck(analysed); !ok {
+		return false, "the rebuilt program does not type-check: " + msg
+	}
+	results, err := runRealised("nilValReturn", nil, []string{analysed}, "")
+	if err != nil {
+		return false, err.Error()
+	}
+	if len(results) == 0 || results[0].Status != "OK" || results[0].Warnings == 0 {
+		return false, "the real checker does not report the rebuilt program"
+	}
+	// run it: does the flagged return ever yield a non-nil value?
+	dir, err := os.MkdirTemp("", "gsx-nilval-")
+	if err != nil {
+		return false, err.Error()
+	}
+	defer os.RemoveAll(dir)
+	main := "package main\n\nimport \"fmt\"\n\n" + body + "\nfunc main() {\n\tch <- nil\n\tch <- sentinel\n\tch <- nil\n\tch <- sentinel\n\tfor i := 0; i < 2; i++ {\n\t\tif v, taken := gsxF(); taken && v != nil {\n\t\t\tfmt.Println(\"NONNIL\")\n\t\t\treturn\n\t\t}\n\t}\n\tfmt.Println(\"NIL\")\n}\n"
+	os.WriteFile(filepath.Join(dir, "main.go"), []byte(main), 0o644)
+	cmd := exec.Command("go", "run", filepath.Join(dir, "main.go"))
+	cmd.Env = append(os.Environ(), "GOFLAGS=-mod=mod", "GOPROXY=off", "GOSUMDB=off", "GOTOOLCHAIN=local")
+	out, err := cmd.CombinedOutput()
+	if err != nil {
+		return false, "compile/run failed: " + lastLines(string(out), 3)
+	}
+	if strings.Contains(string(out), "NONNIL") {
+		return true, "the real checker reports `returned expr is always nil` for the return in\n" + analysed + "compiled and run, that return yields a non-nil value"
+	}
+	return false, "the flagged return yields nil in the compiled program"
+}
+
+// replayExitAfterDefer: rebuild the program of the model and let the real
+// checker and go/types decide whether the reported qualifier is the std package.
+func replayExitAfterDefer(rc *runCtx, h *harness, v *interp.Violation, file string) (bool, string) {
+	names := [][2]string{{"log", "Fatal"}, {"log", "Fatalf"}, {"log", "Fatalln"}, {"os", "Exit"}}
+	k := int(v.Model["choose:callee?c"].I.Int64())
+	kind := int(v.Model["choose:qualifier is?c"].I.Int64())
+	if k < 0 || k >= len(names) {
+		return false, "model without a callee"
+	}
+	q, f := names[k][0], names[k][1]
+	arg := `"boom"`
+	if f == "Exit" {
+		arg = "1"
+	}
+	var src string
+	switch kind {
+	case 2:
+		src = "package cand\n\ntype logger struct{}\n\nfunc (logger) " + f + "(v ...interface{}) {}\n\nfunc f() {\n\tvar " + q + " logger\n\tdefer println()\n\t" + q + "." + f + "(" + arg + ")\n}\n"
+	default:
+		return false, "only the local-variable namesake is rebuilt natively (a foreign package of that name needs a module)"
+	}
+	if ok, msg := typeCheck(src); !ok {
+		return false, "the rebuilt program does not type-check: " + msg
+	}
+	results, err := runRealised("exitAfterDefer", nil, []string{src}, "")
+	if err != nil {
+		return false, err.Error()
+	}
+	if len(results) > 0 && results[0].Status == "OK" && results[0].Warnings > 0 {
+		return true, "the real checker reports that a method of a local variable named " + q + " `will exit`: " + results[0].JSON + "\n" + src
+	}
+	return false, "the real checker stays silent on the namesake"
 }
